@@ -839,9 +839,16 @@ def _build(spec, variant=None):
             lhs = rso.E(lhs)
         c = (lhs <= row['rhs'] if row['sense'] == 'le' else lhs >= row['rhs'])
         if row.get('amb') and fset2 is not None and hasattr(c, 'forall'):
+            if variant.get('late_forall') and type(c).__name__ in ('DecRoConstr', 'DecLinConstr'):
+                # enters the model with the default ambiguity set; the caller attaches the
+                # second one to the same object later (forall() works in place for these)
+                m.st(c)
+                B.pending_forall.append((c, fset2))
+                return
             c = c.forall(fset2)
         m.st(c)
 
+    B.pending_forall = []
     B.add_row = add_row
     for row in spec['rows']:
         add_row(row)
